@@ -120,6 +120,12 @@ def run_scenarios(ctx, prop, make_scenarios, proj, max_violations=3, want=None):
                 ctx.coverage["samples"].append({"cfg": sc["cfg"], "pipes": sc["pipes"][:2], "steps": sc["steps"][:12],
                                                 "n_steps": len(sc["steps"]), "model_last": g.obs[-1] if g.obs else None})
             fails = lean_check(drv, prop, sc, iobs)
+            if prop == "C09" and not fails and len(ctx.violations) < max_violations:
+                extra = containers_without_accepted_assignment(sc, iobs)
+                if extra:
+                    ctx.violations.append({"what": extra, "clauses": ["one-container-per-accepted-assignment"], "layer": "E", "scenario": sc,
+                                           "sig": {"clause": "one-container-per-accepted-assignment"}})
+                    continue
             mfails = lean_check(drv, prop, sc, g.obs)
             if mfails:
                 ctx.sit("model_trace_fails_checker")
@@ -162,6 +168,34 @@ def run_scenarios(ctx, prop, make_scenarios, proj, max_violations=3, want=None):
                             "a scenario is non-trivial if at least one container produced a result in it; distinct = distinct scenario hash")
 
 
+def containers_without_accepted_assignment(sc, iobs):
+    """C09, counted on the implementation's own trace: a tick starts at most one new container per assignment handed to *it* -- whatever a refused or
+    earlier command may have left behind inside the executor (a refused tick may have started the containers of the pools served before the refusing one;
+    the model does the same)"""
+    seen, pending = set(), 0
+    for k, (st, o) in enumerate(zip(sc["steps"], iobs)):
+        if not isinstance(o, dict):
+            continue
+        if st[0] == "assign":
+            pending += 1 if o.get("ok") else 0
+        elif st[0] == "tick":
+            if o.get("state") is None:
+                break
+            cur = set()
+            for pl in o["state"].get("pools", []):
+                cur |= {c[0] for c in pl.get("A", [])} | {c[0] for c in pl.get("S", [])} | set(pl.get("D", []))
+            cur |= {r[0] for r in o.get("res", [])}
+            new = cur - seen
+            seen |= cur
+            allowed = pending          # also in a refused tick: the pools are served in turn, and those before the refusing one have started their containers
+            if len(new) > allowed:
+                return (f"step {k}: {len(new)} new container(s) {sorted(new)} appeared in a tick that "
+                        f"{'was handed ' + str(pending) + ' assignment(s)' if o.get('ok') else 'was refused (' + str(o.get('err')) + ')'}"
+                        f": a container exists that no accepted assignment accounts for")
+            pending = 0
+    return None
+
+
 def replay_scenario(ctx, prop, rep, proj):
     sc = rep.get("scenario") or rep.get("theorem_or_tie", {}).get("scenario")
     drv = Driver()
@@ -174,6 +208,12 @@ def replay_scenario(ctx, prop, rep, proj):
             ctx.violations.append({"what": f"check_{prop} fails on the implementation trace: {', '.join(clause_names(fails))}",
                                    "clauses": clause_names(fails), "layer": "E", "scenario": sc, "sig": {"clause": clause_names(fails)[0]}})
             return
+        if prop == "C09":
+            extra = containers_without_accepted_assignment(sc, iobs)
+            if extra:
+                ctx.violations.append({"what": extra, "clauses": ["one-container-per-accepted-assignment"], "layer": "E", "scenario": sc,
+                                       "sig": {"clause": "one-container-per-accepted-assignment"}})
+                return
         crash = next((o["err"] for o in iobs if isinstance(o, dict) and str(o.get("err", "")).startswith("other:")), None)
         if prop in CRASH_IS_VIOLATION and crash:
             ctx.violations.append({"what": f"the executor raised an undocumented exception: {crash}", "layer": "E", "scenario": sc, "sig": {"clause": "implementation-raised"}})
